@@ -154,7 +154,19 @@ claim("C10", "model_checking", "TLC enumerates every comment layout x content li
       "TLA+ spec Ranges.tla model-checked with TLC; spec->impl replay of every layout with constructed ground truth",
       "DESIGN.md §6 C10")
 
-for pid in ["C04", "C15", "C16", "C17"]:
+claim("C15", "model_checking", "TLC checks Scope.tla -- the walk loop and the diff loop of parse_blocks as actions, in every "
+      "file order -- against the set-algebra contract Examined = ((Walk \\ Hidden \\ GitIgnored) /\\ Allow \\/ DiffFiles) "
+      "\\ Ignore with the four documented glob forms written out and exactly one leading b/ removed from diff paths, over a "
+      "tree with nested directories, directories named a and b, a name with a space, a hidden and a git-ignored file; each "
+      "emitted scenario (globs x ignore globs x diff subset x interactive or not) is materialised on disk -- files out of "
+      "scope carry an unclosed tag, so any leak is an error -- and listed through the real CLI from the root or a "
+      "sub-directory.",
+      "Trusted: glob spellings of the four forms; the `ignore` and `globset` crates are exercised for real (real tree, "
+      "real .gitignore).",
+      "TLA+ spec Scope.tla model-checked with TLC; spec->impl replay of emitted scenarios on real directory trees via the CLI",
+      "DESIGN.md §6 C15")
+
+for pid in ["C04", "C16", "C17"]:
     NA[pid] = "check not built yet in this round (planned, see DESIGN.md §6); not a limit of the technique"
 
 
